@@ -75,6 +75,13 @@ def main():
     for case in req['cases']:
         strings = {int(k): v for k, v in case['strings']}
         ev = untag(case['event'])
+        if case.get('alias'):
+            # equal sub-dictionaries are ONE object (a binary plist may reference one container several times)
+            seen = {}
+            for k in list(ev):
+                if isinstance(ev[k], dict):
+                    key = repr(sorted(ev[k].items()))
+                    ev[k] = seen.setdefault(key, ev[k])
         try:
             if case.get('via_dump'):
                 # the same record inside a version-3 dump whose thread map declares the record's thread, read back through
